@@ -9,6 +9,7 @@ class _C19(Spec):
     pid = "C19"
     lean_module = "Starcal.Props.C19"
     src_ties = ["Starcal.SrcTie.Utils"]
+    src_overflow = ["Starcal.SrcTie.NoOverflow"]
     expected = "a = b*q + r with r zero or of the sign of b and |r| < |b|; Divmod returns that pair; BisectLeft returns the first position whose element is >= key"
     rule = ("line protocol `misc divmod a b`: exhaustive a in [-600,600], b in [-40,40]\\{0}; seeded random 64-bit pairs incl. extremes (MinInt/-1 excluded); "
             "`misc bisect`: every sorted list of length <=6 over 0..5 with every key -1..6, plus seeded random sorted lists. Model vs real code per line; "
